@@ -77,9 +77,11 @@ func helperFuncs(p *load.Program) []*ssa.Function {
 }
 
 func runC08(c *core.Ctx) {
-	c.Explain("Structural clauses of C08 decided from source for every package-level helper of hackpadfs whose first parameter is an FS or a File (and the unexported functions only they reach): (R08.1) for every call that returns an error — other helpers, interface methods, File methods — on every path on which that error is non-nil the helper returns it, wraps it, hands it on, returns another definitely non-nil error, or consumes it through an enumerated idiom (errors.Is(ErrNotExist) inside RemoveAll's recursion, errors.Is(ErrExist) inside MkdirAll, errors.Is(ErrNotImplemented) to try the next capability, closing a read-only handle); a nil/may-be-nil return on such a path is a violation ('a helper never reports success for work that was not done'); (R08.3) the path on which every capability assertion of a helper failed returns a *PathError/*LinkError carrying ErrNotImplemented or enters the documented fallback. NOT claimed: equality of results and final state between the optimised path and the fallback across the 2^k capability subsets.")
+	runFixtures(c, "drop")
+	c.Explain("Structural clauses of C08 decided from source for every package-level helper of hackpadfs whose first parameter is an FS or a File (and the unexported functions only they reach): (R08.1) for every call that returns an error — other helpers, interface methods, File methods — on every path on which that error is non-nil the helper returns it, wraps it, hands it on, returns another definitely non-nil error, or consumes it through an enumerated idiom (errors.Is(ErrNotExist) inside RemoveAll's recursion, errors.Is(ErrExist) inside MkdirAll, errors.Is(ErrNotImplemented) to try the next capability, closing a read-only handle); a nil/may-be-nil return on such a path is a violation ('a helper never reports success for work that was not done'); (R08.3) the path on which every capability assertion of a helper failed returns a *PathError/*LinkError carrying ErrNotImplemented or enters the documented fallback; (R08.4, contradiction rule) inside one helper all calls of the same fallible callee consult the same sentinels (errors.Is) on its error — if one Mkdir site tolerates ErrExist and another returns it, the fallback answers 'already there' differently from the optimised implementation. NOT claimed: equality of results and final state between the optimised path and the fallback across the 2^k capability subsets.")
 	c.Assume("A1: interface-dispatched FS/File methods return nil error only when the operation was done", "A6: partial correctness")
 	c.RuleDoc("R08.1", "no primitive error dropped on any failing path of a helper")
+	c.RuleDoc("R08.4", "sibling calls of one callee inside a helper consult the same sentinels")
 	c.RuleDoc("R08.3", "all-capabilities-missing path returns ErrNotImplemented or enters the fallback")
 	for _, p := range c.Progs {
 		c.SetProg(p)
@@ -139,9 +141,11 @@ func runC08(c *core.Ctx) {
 			}
 		}
 		r08NotImplemented(c, p, helpers)
+		r08Siblings(c, p, list)
 	}
 	c.Floor("R08.1", 40)
 	c.Floor("R08.3", 25)
+	c.Floor("R08.4", 2)
 }
 
 // r08NotImplemented: (also R05.4) in each helper, the return reached when every type assertion failed.
@@ -203,4 +207,78 @@ func r08NotImplemented(c *core.Ctx, p *load.Program, helpers []*ssa.Function) {
 			c.Bad("R08.3", key, p.Pos(ret.Pos()), fmt.Sprintf("%s: when the file system supports none of the interfaces the helper probes, it returns %s; must be a *PathError/*LinkError with ErrNotImplemented (or a fallback)", fname(fn), strings.TrimSpace(info.String())))
 		}
 	}
+}
+
+// r08Siblings (R08.4, contradiction rule): within one helper, all calls of the same fallible callee consult the
+// same sentinels on its error. If one site tolerates ErrExist (errors.Is) and another returns the error as is, one
+// of them is wrong — the optimised implementation answers both situations alike.
+func r08Siblings(c *core.Ctx, p *load.Program, fns []*ssa.Function) {
+	for _, fn := range fns {
+		if fn.Parent() != nil {
+			continue
+		}
+		type site struct {
+			cl   *ssa.Call
+			sent map[string]bool
+		}
+		groups := map[*ssa.Function][]site{}
+		var order []*ssa.Function
+		ssax.Instrs(fn, func(ins ssa.Instruction) {
+			cl, ok := ins.(*ssa.Call)
+			if !ok {
+				return
+			}
+			callee := ssax.StaticCallee(cl)
+			if callee == nil || !p.InModule(callee) || ssax.ErrorResultIndex(callee.Signature) < 0 || callee == fn {
+				return
+			}
+			ev := ssax.ErrorValueOf(cl)
+			s := site{cl: cl, sent: map[string]bool{}}
+			if ev != nil && ev.Referrers() != nil {
+				for _, r := range *ev.Referrers() {
+					if e, sn, ok := isErrorsIs(valueOfInstr(r)); ok && e == ev && sn != "" {
+						s.sent[sn] = true
+					}
+				}
+			}
+			if _, seen := groups[callee]; !seen {
+				order = append(order, callee)
+			}
+			groups[callee] = append(groups[callee], s)
+		})
+		for _, callee := range order {
+			g := groups[callee]
+			if len(g) < 2 {
+				continue
+			}
+			union := map[string]bool{}
+			for _, s := range g {
+				for k := range s.sent {
+					union[k] = true
+				}
+			}
+			for i, s := range g {
+				key := fmt.Sprintf("%s|%s#%d", fname(fn), fname(callee), i+1)
+				var missing []string
+				for k := range union {
+					if !s.sent[k] {
+						missing = append(missing, k)
+					}
+				}
+				sort.Strings(missing)
+				if len(missing) == 0 {
+					c.OK("R08.4", key, p.Pos(s.cl.Pos()), "consults the same sentinels as its sibling calls")
+				} else {
+					c.Bad("R08.4", key, p.Pos(s.cl.Pos()), fmt.Sprintf("%s: this call of %s does not consult %v on its error although a sibling call in the same function does: the two sites answer the same situation (e.g. the directory already exists) differently, so the fallback's result differs from the optimised implementation's", fname(fn), fname(callee), missing))
+				}
+			}
+		}
+	}
+}
+
+func valueOfInstr(i ssa.Instruction) ssa.Value {
+	if v, ok := i.(ssa.Value); ok {
+		return v
+	}
+	return nil
 }
